@@ -538,7 +538,26 @@ fn check_multi(out: &mut ShardOut, ctx: &Ctx, op: &str, w: (usize, usize), cfg: 
             }
             return;
         }
-        let res = guarded(|| run_multi(op, w, cfg, stream, &prefix));
+        let mut res = guarded(|| run_multi(op, w, cfg, stream, &prefix));
+        // The scheduler reports "stuck" when the thread holding the baton does not reach its next
+        // point within 10 s. On a heavily loaded machine that can be plain CPU starvation: the SAME
+        // schedule prefix is executed again (up to twice); only a stall that reproduces is judged
+        // below, a one-off stall is counted and the successful re-execution is used.
+        for _ in 0..2 {
+            match &res {
+                Ok(Err(e)) if e.contains("stuck") => {
+                    let again = guarded(|| run_multi(op, w, cfg, stream, &prefix));
+                    match &again {
+                        Ok(Err(e2)) if e2.contains("stuck") => break, // reproduced: judged below
+                        _ => {
+                            out.count("one_off_scheduler_stalls_re_executed", 1);
+                            res = again;
+                        }
+                    }
+                }
+                _ => break,
+            }
+        }
         schedules += 1;
         out.evaluations += 1;
         out.traces += 1;
